@@ -168,9 +168,13 @@ claim("C16",
            "Pipeline; depth <= 3), complete in the nested estimators and data: enumerate_pipeline_models (recursive generator, executed from the real source) "
            "yields exactly the recursive specification enum(p, c) - parents first, each nested model once, distinct coordinates of length depth+1; "
            "alter_pipeline_for_debugging: every replaced method of every leaf returns exactly the saved original's output on the same arguments and records "
-           "that input and output. Bounded: 8 real pipelines x 3 data schemas: pipeline2str lines, pipeline2dot parsed (declared endpoints/ports, acyclic, "
-           "steps and input columns present, outputs reachable, every input port used), wrappers transparent and chaining.",
-      note="pipeline2dot / _pipeline_info / pipeline2str are bounded only (not applicable to the proof). Shape bounded; estimator protocol assumed.",
+           "that input and output; pipeline2str (same shapes x 3 indents): one line per yielded model, indented by indent x depth, naming the class. "
+           "Unbounded: the node-name generator of the graph (_pipeline_info._get_name, nested function, real while loop) never returns a name already in "
+           "use for ANY set of names in use (membership as a z3 array String -> Bool), adds exactly the new names, records their info, keeps the prefix; "
+           "lists of prefixes give pairwise distinct names. Bounded: 8 real pipelines x 3 data schemas: pipeline2str lines, pipeline2dot parsed (declared "
+           "endpoints/ports, acyclic, steps and input columns present, outputs reachable, every input port used), wrappers transparent and chaining.",
+      note="pipeline2dot / _pipeline_info as a whole are bounded only (dictionary plumbing; only the name generator is under contract). Shape bounded; "
+           "estimator protocol assumed; termination of the name search not proved.",
       technique="deductive verification on generic estimators per pipeline shape (generator semantics, closures, MethodType), z3")
 claim("C06",
       text="Proof: norm='L2' fit / predict / transform are exactly one KMeans.fit / predict / transform call with the caller's arguments whose result is "
